@@ -33,6 +33,9 @@ DEFAULT = {
     "p_next_in_constraint": 0.15,  # a constraint on the NEXT value of w: nw_constraint(next_w, kn) = kn <= next_w
     "p_a_tie": 0.12,           # the restricted choice a enters no payoff: exact ties between its labels wherever transitions do not separate them
     "p_kwonly": 0.2,           # the own parameters of utility (and of next_w) are declared keyword-only: def utility(c, w, *, k)
+    "p_default_params": 0.25,  # own parameters declared with a default value (def utility(c, w, k=3.0)) that differs from the value in
+                               # params: the value stored under the function's name is what counts (decided on a random stream
+                               # of its own, derived from the model, so that the main stream of the generator is unchanged)
     "pad_states": 0,           # number of extra discrete states x0, x1, ... with one (sometimes two) labels and identity transitions:
                                # models with many variables (17+) at the cost of few cells
     "p_int_arith": 0.3,        # a payoff term built by INTEGER arithmetic on the restricted variables that goes negative: c * (a - r - 1)
@@ -99,6 +102,9 @@ def rand_model(rng: random.Random, over=None):  # noqa: C901, PLR0912, PLR0915
         if m is not None:
             if rng.random() < P["p_undefined_outside"]:
                 undefined_outside(rng, m)
+            r2 = random.Random(repr(sorted((f["name"], tuple(f["args"])) for f in m["funcs"])) + repr(m["T"]))
+            if r2.random() < P["p_default_params"]:
+                default_params(r2, m)
             return m
     raise RuntimeError("generator could not satisfy the size bound")
 
@@ -548,6 +554,30 @@ def _rand_model_once(rng, P):  # noqa: C901, PLR0912, PLR0915
             "meta": {"feat": feat, "admitted": admitted, "fstates": (["r"] + (["q"] if has_q else [])) if has_r else [],
                      "inexact": bool(P["inexact"] or log_w),
                      **({"x64": True, "tol": [0, 1]} if feat.get("x64_ties") else {})}}
+
+
+def default_params(rng, m):
+    """Declare own parameters of model functions with a default value other than the one in params (positional parameters
+    with a default go to the end of the signature, as Python requires)."""
+    aliased = {f.get("alias_of") for f in m["funcs"]} | {f["name"] for f in m["funcs"] if f.get("alias_of")}
+    done = False
+    for f in m["funcs"]:
+        own = m["params"].get(f["name"])
+        if f["kind"] == "stoch" or not isinstance(own, dict) or not own or f["name"] in aliased or rng.random() < 0.4:
+            continue
+        d = {}
+        for pn, val in own.items():
+            if pn in f["args"]:
+                d[pn] = [val[0] + rng.choice([1, 2, -1]) * val[1], val[1]]      # value +- 1 or 2: never the value in params
+        if not d:
+            continue
+        kw = set(f.get("kwonly") or [])
+        f["args"] = [a for a in f["args"] if a in kw or a not in d] + [a for a in f["args"] if a not in kw and a in d]
+        f["defaults"] = d
+        done = True
+    if done:
+        m.setdefault("meta", {}).setdefault("feat", {})["default_params"] = True
+    return m
 
 
 def undefined_outside(rng, m):
